@@ -183,7 +183,10 @@ class World:
         self.next += 1
         self.h2o[h] = a
         self.o2h[id(a)] = h
-        sbf = self.core.stationaryBlockFlagsList
+        # which blocks stay in place is what the *settings* say (not what the core ended up believing)
+        from armi.reactor.flags import Flags
+
+        sbf = [Flags.fromString(nm) for nm in self.plan["config"]["settings"].get("stationaryBlockFlags", [])]
         lst = []
         for b in a:
             bh = self.next
